@@ -57,8 +57,10 @@ def diff_case(real, model):
         for k in sorted(set(R[n]) | set(M[n])):
             if R[n].get(k) != M[n].get(k):
                 diffs.append((n, k, R[n].get(k), M[n].get(k)))
-    if norm(real.get('builders')) != norm(model.get('builders')):
+    if sorted(set(norm(real.get('builders')))) != sorted(set(norm(model.get('builders')))):     # as a set, see default_fns below
         diffs.append(("<builders>", "", real.get('builders'), model.get('builders')))
-    if sorted(norm(real.get('default_fns'))) != sorted(norm(model.get('default_fns'))):
+    # the summary names WHICH functions `mod defaults` holds (a set, as in Render.lean); a name emitted twice is C01's
+    # conjunct default_fns_unique (finding C01-default-fn-clash), decided on the IR, not a difference of the render model
+    if sorted(set(norm(real.get('default_fns')))) != sorted(set(norm(model.get('default_fns')))):
         diffs.append(("<default_fns>", "", real.get('default_fns'), model.get('default_fns')))
     return diffs
